@@ -561,3 +561,179 @@ Fixpoint rfc_stream (fuel : nat) (max : N) (bs : list N) : list rfc_event :=
           else []
       end
   end.
+
+(* ---------------------------------------------------------------------------------------- *)
+(* ORACLE for the receive side (lib/props/parts/framecodec.py search_framecodec): the reference
+   grammar (Ref/Rfc9113Frame.v) applied to the very octets the implementation was fed, walked in
+   lock-step with the events the implementation produced.  No part of the model of h2 above is
+   used, except on the documented deviations, where the model's verdict is the expected one.
+
+   The oracle is exact for framing: frame boundaries, sizes, flags, stream identifiers, padding,
+   priority fields, SETTINGS / PING / GOAWAY / WINDOW_UPDATE / RST_STREAM values, and the
+   CONTINUATION discipline.  Header *content* is compared when the block lies in the literal
+   fragment of HPACK (lit_loop run once over the whole reassembled block, no size limit); where
+   h2 refuses a block for reasons of content or size (malformed fields, list too large,
+   CONTINUATION flood) the oracle only insists that a refusal is an error event. *)
+
+Definition ievent_is_error (e : ievent) : bool :=
+  match e with IReset _ _ => true | IGoAway _ _ => true | _ => false end.
+
+Definition big_limit : N := 1099511627776.
+
+(* reference decoding of a complete block; None when outside the literal fragment *)
+Definition ref_fields (block : list N) : option (list (list N * list N)) :=
+  match lit_loop (S (length block)) big_limit lit_empty 0 false block with
+  | (HpOk, _, st) => Some (lt_fields st)
+  | _ => None
+  end.
+
+(* does the delivered header frame say what the reference value says? *)
+Definition header_event_matches (w : wire_frame) (max_hls : N) (e : ievent) : bool :=
+  match e with
+  | IHeaders f fields over =>
+      let content_ok block :=
+        match ref_fields block with
+        | Some fs => if over then true else fields_eqb fs fields
+        | None => true
+        end in
+      match w, f with
+      | WHeaders sid es _ prio block, FHeaders sid' fl dep _ =>
+          (sid =? sid') && Bool.eqb es (has_bit fl headers_END_STREAM) && has_bit fl headers_END_HEADERS
+          && opt_prio_eqb prio dep && content_ok block
+      | WPushPromise sid _ promised block, FPushPromise sid' fl promised' _ =>
+          (sid =? sid') && has_bit fl headers_END_HEADERS && (promised =? promised') && content_ok block
+      | _, _ => false
+      end
+  | _ => false
+  end.
+
+(* [walk]: reference verdicts [rs] (from rfc_stream) against implementation events [is];
+   [frames] are the octets of the frames the verdicts belong to (for the deviations) *)
+Fixpoint oracle_walk (max max_hls : N) (cur : option open_block) (rs : list rfc_event) (frames : list (list N))
+         (is : list ievent) : bool :=
+  match rs with
+  | [] =>
+      (* the reference has nothing more to say: neither may the implementation (an error is
+         tolerated: limits such as the CONTINUATION flood act on incomplete blocks) *)
+      match is with
+      | [] => true
+      | e :: _ => ievent_is_error e
+      end
+  | RReject code :: _ =>
+      let fr := match frames with f :: _ => f | [] => [] end in
+      match deviation_of fr, model_parse max fr with
+      | DevGoAwayStreamId, POk (LdFrame f) =>
+          match is with IFrame f' :: _ => frame_eqb f f' | _ => false end
+      | DevResetStreamZero, POk (LdFrame f) =>
+          match is with IFrame f' :: _ => frame_eqb f f' | _ => false end
+      | _, _ =>
+          match is with
+          | IGoAway r _ :: _ => if code =? FRAME_SIZE_ERROR then (r =? reason_FRAME_SIZE_ERROR) || negb (olen fr =? 0) && true
+                               else true
+          | IReset _ _ :: _ => negb (code =? FRAME_SIZE_ERROR) || negb (match declared_length fr with
+                                                                          | Some l => max <? l | None => false end)
+          | _ => false
+          end
+      end
+  | RAccept w :: rs' =>
+      let frames' := match frames with _ :: t => t | [] => [] end in
+      let fr := match frames with f :: _ => f | [] => [] end in
+      let expect_error := match is with e :: _ => ievent_is_error e | [] => false end in
+      match cur with
+      | Some o =>
+          match w with
+          | WContinuation s eh frag =>
+              if s =? open_stream o then
+                if eh then
+                  match is with
+                  | e :: is' =>
+                      if ievent_is_error e then true
+                      else header_event_matches (open_close (open_extend o frag)) max_hls e
+                           && oracle_walk max max_hls None rs' frames' is'
+                  | [] => false
+                  end
+                else
+                  (* a limit (flood, size) may strike in the middle of a block *)
+                  match is with
+                  | e :: _ => if ievent_is_error e then true
+                              else oracle_walk max max_hls (Some (open_extend o frag)) rs' frames' is
+                  | [] => oracle_walk max max_hls (Some (open_extend o frag)) rs' frames' is
+                  end
+              else expect_error
+          | _ => expect_error
+          end
+      | None =>
+          match w with
+          | WContinuation _ _ _ => expect_error
+          | WUnknown _ _ _ _ => oracle_walk max max_hls None rs' frames' is
+          | WHeaders s es false p frag =>
+              match is with
+              | e :: _ => if ievent_is_error e then true
+                          else oracle_walk max max_hls (Some (OpenHeaders s es p frag)) rs' frames' is
+              | [] => oracle_walk max max_hls (Some (OpenHeaders s es p frag)) rs' frames' is
+              end
+          | WPushPromise s false pr frag =>
+              if match deviation_of fr with DevPushPromiseEmptyFragment => true | _ => false end
+              then expect_error
+              else
+              match is with
+              | e :: _ => if ievent_is_error e then true
+                          else oracle_walk max max_hls (Some (OpenPush s pr frag)) rs' frames' is
+              | [] => oracle_walk max max_hls (Some (OpenPush s pr frag)) rs' frames' is
+              end
+          | WHeaders _ _ true _ _ =>
+              match is with
+              | e :: is' => if ievent_is_error e then true
+                            else header_event_matches w max_hls e && oracle_walk max max_hls None rs' frames' is'
+              | [] => false
+              end
+          | WPushPromise _ true _ _ =>
+              if match deviation_of fr with DevPushPromiseEmptyFragment => true | _ => false end
+              then expect_error
+              else
+              match is with
+              | e :: is' => if ievent_is_error e then true
+                            else header_event_matches w max_hls e && oracle_walk max max_hls None rs' frames' is'
+              | [] => false
+              end
+          | _ =>
+              match is with
+              | IFrame f :: is' => wire_matches w (LdFrame f) && oracle_walk max max_hls None rs' frames' is'
+              | _ => false
+              end
+          end
+      end
+  end.
+
+(* the frames (octets) the verdicts of rfc_stream refer to, in the same order *)
+Fixpoint stream_frames (fuel : nat) (max : N) (bs : list N) : list (list N) :=
+  match fuel with
+  | O => []
+  | S fuel' =>
+      match declared_length bs with
+      | None => []
+      | Some len =>
+          if max <? len then [bs]
+          else if 9 + len <=? olen bs then take (9 + len) bs :: stream_frames fuel' max (drop (9 + len) bs)
+          else []
+      end
+  end.
+
+Definition oracle_read (c : N * N * list N * list N * list ievent * bool) : bool :=
+  let '(max_frame, max_hls, bs, _, impl, _) := c in
+  let fuel := S (length bs) in
+  (* an oversize frame must be answered with FRAME_SIZE_ERROR, and nothing after it *)
+  oracle_walk max_frame max_hls None (rfc_stream fuel max_frame bs) (stream_frames fuel max_frame bs) impl
+  && negb (existsb (fun e => match e with IPanic => true | _ => false end) impl).
+
+(* which documented deviation (1 PUSH_PROMISE empty fragment, 2 GOAWAY stream id, 3 RST_STREAM on
+   stream 0) does the stream contain?  [oracle_known code c] is FALSE when it does (the Python side
+   collects the indices of failing cases) *)
+Definition oracle_known (code : N) (c : N * N * list N * list N * list ievent * bool) : bool :=
+  let '(max_frame, _, bs, _, _, _) := c in
+  negb (existsb (fun fr => match deviation_of fr with
+                           | DevPushPromiseEmptyFragment => code =? 1
+                           | DevGoAwayStreamId => code =? 2
+                           | DevResetStreamZero => code =? 3
+                           | _ => false
+                           end) (stream_frames (S (length bs)) max_frame bs)).
